@@ -429,6 +429,7 @@ inline void m16(const Edge& e, const Parsed&) {
 			// a state that defines no callback: no delivery is observable. Verbose logging must record these deliveries (checked below);
 			// plain logging happens to record the event-templated ones as well, which is truthful (DESIGN.md O5)
 			if (v.sid == bare) continue;
+			if (e.op.k == OP_REACT && e.op.a && !own_defined_evb(v.sid) && is_phase(v.meth)) continue;   // same for a state that does not handle this event type
 			const Ev* nx = i + 1 < e.nev ? &e.tr[i + 1] : nullptr;
 			if (!nx || nx->kind != EV_CB || nx->sid != v.sid || nx->meth != v.meth) flag(C16, "method-record-without-delivery", e, "ev %d: record (%d,%s) is not followed by that delivery", i, v.sid, v.meth < 15 ? METH_NAME[v.meth] : "?");
 			continue;
